@@ -84,18 +84,21 @@ pub const DHS: [&str; 3] = ["25519", "448", "P256"];
 pub const CIPHERS: [&str; 3] = ["ChaChaPoly", "XChaChaPoly", "AESGCM"];
 pub const HASHES: [&str; 4] = ["SHA256", "SHA512", "BLAKE2s", "BLAKE2b"];
 
-pub fn dh_choice_of_name(dh: &str) -> snow::params::DHChoice {
+pub fn dh_choice_of_name(dh: &str) -> Option<snow::params::DHChoice> {
     match dh {
-        "25519" => snow::params::DHChoice::Curve25519,
-        "448" => snow::params::DHChoice::Curve448,
-        _ => snow::params::DHChoice::P256,
+        "25519" => Some(snow::params::DHChoice::Curve25519),
+        "448" => Some(snow::params::DHChoice::Curve448),
+        #[cfg(feature = "full")]
+        _ => Some(snow::params::DHChoice::P256),
+        #[cfg(not(feature = "full"))]
+        _ => None,
     }
 }
 
 /// Public key of `privk` through the resolver's own `Dh` (public trait).
 pub fn pub_of(resolver: &str, dh: &str, privk: &[u8]) -> Option<Vec<u8>> {
     let r = resolver_from_expr(resolver)?;
-    let mut d = r.resolve_dh(&dh_choice_of_name(dh))?;
+    let mut d = r.resolve_dh(&dh_choice_of_name(dh)?)?;
     let privk = privk.to_vec();
     std::panic::catch_unwind(std::panic::AssertUnwindSafe(move || {
         d.set(&privk);
@@ -106,7 +109,7 @@ pub fn pub_of(resolver: &str, dh: &str, privk: &[u8]) -> Option<Vec<u8>> {
 
 pub fn pub_len_of(resolver: &str, dh: &str) -> Option<usize> {
     let r = resolver_from_expr(resolver)?;
-    Some(r.resolve_dh(&dh_choice_of_name(dh))?.pub_len())
+    Some(r.resolve_dh(&dh_choice_of_name(dh)?)?.pub_len())
 }
 
 // ------------------------------------------------------------------ handshake scenarios
@@ -174,7 +177,33 @@ pub struct HsCfg {
     pub seed: u64,
 }
 
+/// The second harness binary is built against snow with default features only (no P-256, no XChaChaPoly, no ring
+/// backend): scenario configurations that name one of those are mapped to a supported neighbour there, so that the
+/// same generators exercise the default build (the build the baseline suite tests). The parser and builder
+/// generators are NOT mapped: there the rejection of those names is what is compared with the model.
+pub const FULL: bool = cfg!(feature = "full");
+pub fn adapt_dh(dh: &str) -> String {
+    if !FULL && dh == "P256" { "25519".into() } else { dh.into() }
+}
+pub fn adapt_cipher(c: &str) -> String {
+    if !FULL && c == "XChaChaPoly" { "AESGCM".into() } else { c.into() }
+}
+pub fn adapt_res(e: &str) -> String {
+    if FULL { e.into() } else { e.replace("ring", "default") }
+}
+pub fn adapt_name(n: &str) -> String {
+    if FULL { n.into() } else { n.replace("_P256_", "_25519_").replace("_XChaChaPoly_", "_AESGCM_") }
+}
+
 impl HsCfg {
+    pub fn adapted(&self) -> HsCfg {
+        let mut c = self.clone();
+        c.dh = adapt_dh(&c.dh);
+        c.cipher = adapt_cipher(&c.cipher);
+        c.res_i = adapt_res(&c.res_i);
+        c.res_r = adapt_res(&c.res_r);
+        c
+    }
     pub fn name(&self) -> String {
         format!("Noise_{}{}_{}_{}_{}", self.pattern, mods_suffix(&self.psks), self.dh, self.cipher, self.hash)
     }
@@ -287,6 +316,7 @@ fn tamper_hits_encrypted(orig: &[u8], alt: &[u8], fields: &[Field], pub_len: usi
 /// Run one handshake scenario; evaluates the implementation oracles along the way.
 #[allow(clippy::too_many_lines)]
 pub fn run_hs(cfg: &HsCfg, sc: &mut Sc) -> HsTrace {
+    let cfg = &cfg.adapted();
     let mut tr = HsTrace::default();
     let name = cfg.name();
     sc.ex.comment(&format!("hs {} res_i={} res_r={} fixed_e={} faults={:?}", name, cfg.res_i, cfg.res_r, cfg.fixed_e, cfg.faults));
